@@ -161,6 +161,42 @@ func (in *Interp) errIs(err, target Value, depth int) bool {
 				return true
 			}
 		}
+		return false
+	}
+	if ei.T == errType || ei.T == ctxType || ei.T == keyType || ei.T == hashType {
+		return false
+	}
+	// real error types: their own Is / Unwrap methods, as errors.Is does
+	ms := in.Prog.MethodSets.MethodSet(ei.T)
+	call := func(name string) (Value, *types.Signature, bool) {
+		sel := ms.Lookup(nil, name)
+		if sel == nil {
+			return Value{}, nil, false
+		}
+		fn := in.Prog.MethodValue(sel)
+		if fn == nil {
+			return Value{}, nil, false
+		}
+		return Value{K: KFunc, R: &Closure{Fn: fn}}, sel.Type().(*types.Signature), true
+	}
+	if f, sig, ok := call("Is"); ok && sig.Params().Len() == 1 && sig.Results().Len() == 1 {
+		if r := in.CallSync(f, []Value{ei.V, target}); r.K == KBool && r.R == nil && r.N == 1 {
+			return true
+		}
+	}
+	if f, sig, ok := call("Unwrap"); ok && sig.Params().Len() == 0 && sig.Results().Len() == 1 {
+		r := in.CallSync(f, []Value{ei.V})
+		if _, isSlice := sig.Results().At(0).Type().Underlying().(*types.Slice); isSlice {
+			if r.R != nil {
+				for _, w := range r.R.(*SliceV).S {
+					if in.errIs(w, target, depth+1) {
+						return true
+					}
+				}
+			}
+			return false
+		}
+		return in.errIs(r, target, depth+1)
 	}
 	return false
 }
@@ -470,6 +506,9 @@ func (in *Interp) lookupIntrinsic0(fn *ssa.Function) *Intrinsic {
 	name := fn.String()
 	if f, ok := intrinsics[name]; ok {
 		return &Intrinsic{Name: name, F: f}
+	}
+	if ai := in.atomicIntrinsic(fn); ai != nil {
+		return ai
 	}
 	if fn.Pkg != nil && !in.isModulePkg(fn.Pkg) && (fn.Name() == "init" || strings.HasPrefix(fn.Name(), "init#")) {
 		return &Intrinsic{Name: "init(external)", F: func(in *Interp, fr *Frame, a []Value) (Value, bool) { return Value{}, true }}
